@@ -205,3 +205,54 @@ def maxrelerr(got, exp, scale=None):
     if s == 0:
         s = 1.0
     return float(np.max(np.abs(got - exp)) / s) if got.size else 0.0
+
+
+def region_of(obj):
+    if isinstance(obj, df.Field):
+        return obj.mesh.region
+    if isinstance(obj, df.Mesh):
+        return obj.region
+    return obj
+
+
+def mesh_of(obj):
+    if isinstance(obj, df.Field):
+        return obj.mesh
+    return obj if isinstance(obj, df.Mesh) else None
+
+
+def approx_equal_geom(a, b, tol):
+    """a (in place result) vs b (copy result): metadata exactly, corners within tol"""
+    ra, rb = region_of(a), region_of(b)
+    if tuple(ra.dims) != tuple(rb.dims):
+        return f"dims {ra.dims} vs {rb.dims}"
+    if tuple(ra.units) != tuple(rb.units):
+        return f"units {ra.units} vs {rb.units}"
+    for x, y in zip(list(ra.pmin) + list(ra.pmax), list(rb.pmin) + list(rb.pmax)):
+        if abs(float(x) - float(y)) > tol:
+            return f"corner {x!r} vs {y!r}"
+    ma, mb = mesh_of(a), mesh_of(b)
+    if ma is not None:
+        if list(ma.n) != list(mb.n):
+            return f"n {ma.n} vs {mb.n}"
+        if ma.bc != mb.bc:
+            return f"bc {ma.bc!r} vs {mb.bc!r}"
+        if list(ma.subregions) != list(mb.subregions):
+            return f"subregions {list(ma.subregions)} vs {list(mb.subregions)}"
+        for k in ma.subregions:
+            sa, sb = ma.subregions[k], mb.subregions[k]
+            if tuple(sa.units) != tuple(sb.units) or tuple(sa.dims) != tuple(sb.dims):
+                return f"subregion {k} units/dims {sa.units}{sa.dims} vs {sb.units}{sb.dims}"
+            for x, y in zip(list(sa.pmin) + list(sa.pmax), list(sb.pmin) + list(sb.pmax)):
+                if abs(float(x) - float(y)) > tol:
+                    return f"subregion {k} corner {x!r} vs {y!r}"
+    if isinstance(a, df.Field):
+        if a.array.shape != b.array.shape or not np.array_equal(a.array, b.array):
+            return "array differs"
+        if a.valid.shape != b.valid.shape or not np.array_equal(a.valid, b.valid):
+            return "validity differs"
+        if a.vdims != b.vdims or a.vdim_mapping != b.vdim_mapping or a.unit != b.unit or a.nvdim != b.nvdim:
+            return "labels/mapping/unit differ"
+    return None
+
+
